@@ -215,19 +215,39 @@ Definition prepend (l : list (key * value)) (o : outcome) : outcome :=
   | Done x => Done (l ++ x) | Panicked x => Panicked (l ++ x) | OutOfFuel x => OutOfFuel (l ++ x)
   end.
 
-(* the whole iteration: the i-th successful scan RPC meets layout/rows [env i] *)
-Fixpoint scan_loop (fuel B : nat) (ko : bool) (env : nat -> layout * rows) (i : nat) (c : cursor) : outcome :=
+(* A scan RPC that does not move the cursor: a region error (stale region: back off, re-locate, send
+   again) or a response-level lock error (cmdScanResp.GetError(): resolve the named lock with
+   ResolveLocks, back off if it is alive, send the same request again). *)
+Inductive retry_kind := RetryRegionError | RetryRespLocked.
+
+(* the whole iteration: the i-th scan RPC either is a retry ([retry i = Some _], the cursor stays) or is
+   served against layout/rows [env i] *)
+Fixpoint scan_loop (fuel B : nat) (ko : bool) (retry : nat -> option retry_kind) (env : nat -> layout * rows)
+         (i : nat) (c : cursor) : outcome :=
   match fuel with
   | O => OutOfFuel []
   | S f =>
       if eof c then Done [] else
-      match get_data B (fst (env i)) (snd (env i)) c with
-      | GDPanic => Panicked []
-      | GD ps c' =>
-          let (out, stop) := consume ko c' ps in
-          if stop then Done out else prepend out (scan_loop f B ko env (S i) c')
+      match retry i with
+      | Some _ => scan_loop f B ko retry env (S i) c
+      | None =>
+          match get_data B (fst (env i)) (snd (env i)) c with
+          | GDPanic => Panicked []
+          | GD ps c' =>
+              let (out, stop) := consume ko c' ps in
+              if stop then Done out else prepend out (scan_loop f B ko retry env (S i) c')
+          end
       end
   end.
+
+(* at most E retries from step i on *)
+Fixpoint count_retry (retry : nat -> option retry_kind) (i n : nat) : nat :=
+  match n with
+  | O => 0%nat
+  | S n' => ((match retry i with Some _ => 1 | None => 0 end) + count_retry retry (S i) n')%nat
+  end.
+Definition bounded_retry (retry : nat -> option retry_kind) (i E : nat) : Prop :=
+  forall n, (count_retry retry i n <= E)%nat.
 
 (* canonical observable: under key-only only keys are compared *)
 Definition canon (ko : bool) (x : key * value) : key * value := if ko then (fst x, []) else x.
@@ -235,6 +255,6 @@ Definition canon (ko : bool) (x : key * value) : key * value := if ko then (fst 
 Definition scan_env (ts : N) (T : truth) (lay : nat -> layout) (lk : nat -> list key) (i : nat) : layout * rows :=
   (lay i, rows_of ts T (lk i)).
 
-Definition scan (fuel B : nat) (ko : bool) (ts : N) (T : truth) (lay : nat -> layout) (lk : nat -> list key)
-           (lo hi : key) (rv : bool) : outcome :=
-  scan_loop fuel (norm_batch B) ko (scan_env ts T lay lk) 0 (init_cursor lo hi rv).
+Definition scan (fuel B : nat) (ko : bool) (ts : N) (T : truth) (retry : nat -> option retry_kind)
+           (lay : nat -> layout) (lk : nat -> list key) (lo hi : key) (rv : bool) : outcome :=
+  scan_loop fuel (norm_batch B) ko retry (scan_env ts T lay lk) 0 (init_cursor lo hi rv).
